@@ -562,3 +562,63 @@ func SplitTop(t *rapid.T, st *Struct, n int) []string {
 	}
 	return out
 }
+
+// StructPaths lists the paths of struct-valued fields of the witness (candidates for printing a sub-value).
+func StructPaths(w *W) []string {
+	var out []string
+	var rec func(w *W, prefix string)
+	rec = func(w *W, prefix string) {
+		for _, f := range w.fields {
+			p := f.label
+			if prefix != "" {
+				p = prefix + "." + f.label
+			}
+			if f.w.kind == "struct" {
+				out = append(out, p)
+				rec(f.w, p)
+			}
+		}
+	}
+	rec(w, "")
+	return out
+}
+
+// SameLabelNested reports whether some field has a descendant field with the same label as itself or one of its ancestors.
+func SameLabelNested(w *W, outer map[string]bool) bool {
+	for _, f := range w.fields {
+		if outer[f.label] && f.w.kind != "" {
+			return true
+		}
+	}
+	for _, f := range w.fields {
+		if f.w.kind == "struct" {
+			o := map[string]bool{}
+			for k := range outer {
+				o[k] = true
+			}
+			for _, g := range w.fields {
+				o[g.label] = true
+			}
+			if SameLabelNested(f.w, o) {
+				return true
+			}
+		}
+		if f.w.kind == "list" {
+			for _, e := range f.w.elems {
+				if e.kind == "struct" {
+					o := map[string]bool{}
+					for k := range outer {
+						o[k] = true
+					}
+					for _, g := range w.fields {
+						o[g.label] = true
+					}
+					if SameLabelNested(e, o) {
+						return true
+					}
+				}
+			}
+		}
+	}
+	return false
+}
